@@ -71,9 +71,19 @@ def run(tier):
                                           "-workers", "12", "-out", tp2], timeout=3000)
         if rc != 0:
             raise Infra("bsy traces (2 concurrent) failed: " + err[-2000:])
+        # the scenario of known finding F-C05-1: a second source delivers at the same instant as the first
+        tp3 = os.path.join(scratch, "bs3.ndjson")
+        rc, o, err = run_harness(binary, ["bsy", "-mode", "traces", "-seed", str(sd + 2), "-count", "80" if quick else "800", "-conc", "2",
+                                          "-simul", "-workers", "12", "-out", tp3], timeout=3000)
+        if rc != 0:
+            raise Infra("bsy traces (simultaneous sources) failed: " + err[-2000:])
         groups = collections.defaultdict(list)
         for l in list(open(tp)) + list(open(tp2)):
             groups[json.loads(l)["start"]].append(l)
+        for l in open(tp3):
+            t = json.loads(l)
+            t["simul"] = True
+            groups[t["start"]].append(json.dumps(t) + "\n")
         ntraces = 0
         for start, ls in sorted(groups.items()):
             out, st = run_tlc(scratch, "BlockSyncTrace", cfg({"MaxLen": 6, "Start": start, "MaxId": 80, "MaxReorgs": 3},
@@ -106,7 +116,12 @@ def run(tier):
                             g = e.get("t", 0) - seen[key]
                             gap = g if gap is None else max(gap, g)
                         seen[key] = e.get("t", 0)
-                facts = {"duplicate_processing_gap_below_3ms": gap is not None and gap < 3000}
+                # A source that is asked for a block while another source is still working on it delivers only if
+                # nobody cancels it within 300 ms (harness bsy).  So a block processed twice within 100 ms is the race
+                # of known finding F-C05-1 (the second download got its block before the cancellation of the first
+                # completion could reach it); 300 ms or more apart it is a download that nobody cancelled.
+                facts = {"block_processed_twice_within_100ms_by_concurrent_downloads": gap is not None and gap < 100000,
+                         "max_gap_between_repeated_processing_us": gap, "simultaneous_scenario": bool(t.get("simul"))}
                 f = match_finding("C05", why, facts)
                 if f:
                     res.add_known(f, why)
